@@ -43,7 +43,7 @@ def plan(tier, seed):
 
 def required(tier):
     from vlib.gridwork import KINDS
-    cl = [f'geom:{k}' for k in KINDS] + ['trajectory:more-than-65536-points', 'axes:alt+time', 'axes:', 'res:fine', 'res:medium',
+    cl = [f'geom:{k}' for k in KINDS] + ['gridder:object-switched-to-another-grid', 'trajectory:more-than-65536-points', 'axes:alt+time', 'axes:', 'res:fine', 'res:medium',
                                          'res:coarse', 'segment:zero-length',
                                          'segment:antimeridian', 'segment:many-crossings',
                                          'integrated:integer-typed']
@@ -139,6 +139,8 @@ def judge(c, rec, Mismatch):
                             **c.desc})
     if c.int_integ:
         rec.cls('integrated:integer-typed')
+    if getattr(c, 'reused_gridder', False):
+        rec.cls('gridder:object-switched-to-another-grid')
     rec.cls(f'geom:{c.kind}', f'res:{c.grid["bucket"]}', f'axes:{c.desc["axes"]}',
             f'combo:{c.kind}:{c.grid["bucket"]}:{c.desc["axes"]}')
 
